@@ -132,8 +132,22 @@ def _configs3(tier):
     return out
 
 
+def _configs4(tier):
+    # four CAs, staggered starts (simultaneous starts of four explode; three are explored in _configs3)
+    if tier == 'quick':
+        return [[[True, 128, '0', '0'], [False, 128, '3ms', '0'], [True, 128, '260ms', '0'], [True, 129, '600ms', '0']]]
+    out = []
+    for aacs in [(True, False, True, True), (False, False, False, False), (True, True, True, True), (False, True, False, True)]:
+        for addrs in [(128, 128, 128, 129), (128, 128, 128, 128), (200, 201, 200, 201), (10, 10, 11, 140)]:
+            for starts in [('0', '3ms', '260ms', '600ms'), ('0', '240ms', '260ms', '600ms')]:
+                out.append([[aacs[i], addrs[i], starts[i], '0'] for i in range(4)])
+    return out
+
+
 def jobs(tier):
     out = []
+    for cfg in _configs4(tier):
+        out.append(Job('C04', 'c04:h_claim', {'cfg': cfg, 'lat_mode': 'per_frame'}, W=96, wall=600 if tier == 'quick' else 1800, max_paths=100000, validate=1))
     for cfg in _configs(tier):
         out.append(Job('C04', 'c04:h_claim', {'cfg': cfg}, W=96, wall=300, max_paths=5000, validate=1))
     # latency exactly 0: every frame handled re-entrantly inside the sender's send call
@@ -155,10 +169,10 @@ def jobs(tier):
 
 def meta(tier):
     return {
-        'bounds': ['2 and 3 CAs on separate stacks (J1939-21; two CAs also on J1939-22 stacks); 64-bit NAMEs symbolic (valid: reserved bit 0), pairwise distinct; arbitrary-address-capable flag case-split',
+        'bounds': ['2, 3 and 4 CAs on separate stacks (J1939-21; two CAs also on J1939-22 stacks; four CAs with staggered starts only); 64-bit NAMEs symbolic (valid: reserved bit 0), pairwise distinct; arbitrary-address-capable flag case-split',
                    'preferred addresses equal / adjacent / distinct in the immediate and veto ranges (see _configs; 3 CAs: all on one address, two on one and the third next to it or elsewhere); start offsets and claim delays from the grid ' + str(sorted(GRID)),
                    'delivery latency of every frame to every receiver: fresh symbolic real in [10 us, 5 ms] (FIFO per receiver kept); scheduling latency 0.1 ms',
                    'quiescence = last start + claim delay + 5 s', 'latency exactly 0 = all frames delivered re-entrantly inside the send call (2 CAs)'],
-        'outside': ['4 CAs', 'address pools exhausted (no room below 247)'],
+        'outside': ['four CAs starting simultaneously', 'more than four CAs', 'address pools exhausted (no room below 247)'],
         'assumptions': ['NAME ordering oracle compares the symbolic 64-bit values; bus log decoded with jv/ref/ids.py'],
     }
